@@ -106,6 +106,31 @@ func TestDrv_CmdLoop(t *testing.T) {
 			ops = append(ops, map[string]any{"op": "encode", "files": []string{c.fifo}, "output": c.out, "to": c.to.name})
 		}
 	}
+	// plot over two regular files in different encodings (the results of one attack split between them): every result once
+	for _, n := range []int{7, 60} {
+		c := &lcase{kind: "plot", n: n, in: codecs[0], to: codecs[0], signalMs: -2}
+		var parts [2][]vegeta.Result
+		for i := 0; i < n; i++ {
+			res := vegeta.Result{Attack: "cl", Seq: uint64(i), Code: 200, Timestamp: time.Unix(1700000000, int64(i)*1e6), Latency: time.Duration(i+1) * time.Millisecond}
+			c.rs = append(c.rs, res)
+			j := r.Intn(2)
+			parts[j] = append(parts[j], res)
+		}
+		k := len(cs)
+		c.out = filepath.Join(dir, fmt.Sprintf("cl%d.out", k))
+		var files []string
+		for j, cd := range []codec{codecs[r.Intn(3)], codecs[r.Intn(3)]} {
+			if len(parts[j]) == 0 {
+				continue
+			}
+			data, _ := encodeAll(cd, parts[j])
+			p := filepath.Join(dir, fmt.Sprintf("cl%d_%d.%s", k, j, cd.name))
+			must(os.WriteFile(p, data, 0o644))
+			files = append(files, p)
+		}
+		cs = append(cs, c)
+		ops = append(ops, map[string]any{"op": "plot", "files": files, "output": c.out, "threshold": 100000, "title": "a <b> & \"c\""})
+	}
 	for _, c := range cs {
 		c := c
 		if c.signalMs < 0 {
@@ -141,9 +166,9 @@ func TestDrv_CmdLoop(t *testing.T) {
 	}
 	interrupted, partial := 0, 0
 	for i, c := range cs {
-		tr.Emit("Reset", KV{"kind": c.kind, "n": c.n, "signalled": c.signalMs > 0, "in": c.in.name, "to": c.to.name, "input_cut_inside_a_record": c.signalMs < 0})
+		tr.Emit("Reset", KV{"kind": c.kind, "n": c.n, "signalled": c.signalMs > 0, "in": c.in.name, "to": c.to.name, "input_cut_inside_a_record": c.signalMs == -1})
 		e := str(res[i], "err")
-		if c.signalMs < 0 {
+		if c.signalMs == -1 {
 			e = "" // the command may well report the damaged input; the question is what it left in the output file
 		}
 		if p := str(res[i], "panic"); p != "" {
